@@ -431,6 +431,10 @@ func c15newEnv(root string) *c15env {
 	cfg.Server.NameConf = ""
 	cfg.HttpsBasic.ServerCertConf = filepath.Join(e.tlsDir[1], "server_cert_conf.data")
 	cfg.HttpsBasic.TlsRuleConf = filepath.Join(e.tlsDir[1], "tls_rule_conf.data")
+	cfg.HttpsBasic.ClientCABaseDir = filepath.Join(root, "client_ca")
+	cfg.HttpsBasic.ClientCRLBaseDir = filepath.Join(root, "client_crl")
+	os.MkdirAll(cfg.HttpsBasic.ClientCABaseDir, 0o755)
+	os.MkdirAll(cfg.HttpsBasic.ClientCRLBaseDir, 0o755)
 	srv := NewBfeServer(cfg, cr, "verif")
 	e.srv = srv
 	if err := srv.InitDataLoad(); err != nil {
